@@ -1,5 +1,6 @@
 SPECIFICATION Spec
 CONSTANTS
+  EndKinds = {"commit", "rollback"}
   StepKinds <- AllKinds
   MaxSteps = 3
   Gtx = {TRUE, FALSE}
